@@ -23,24 +23,33 @@ TEXTS = {
                 text='Bounded: ast.dump of the output equal across 77-117 configurations for the C01 corpus, commented values, stdlib '
                      'instances, subclass instances and a pretty_call user type; every line indented by a multiple of indent.',
                 note='CPython ast as oracle; bounds in the evidence.'),
-    'C04': dict(category='other', engine='pyvc+bounded', technique=_PYVC + '; bounded reference matcher on top',
-                text='Proved for all documents, widths and both strategies (192 obligations): the stack machine best_layout emits exactly '
-                     'den(doc, O), a compositional denotation written from the statement, for the oracle O of the decisions it took '
-                     '(loop invariant dens(stack) after out == den(doc), termination measure, no raise-path), under the precondition hlsafe '
-                     '(no literal hard line in the flat rendering of a group). Normalisation and the FlatChoice accessors enter through '
-                     'contracts that are still assumed; the renderer is not yet under contract: hence level other.',
-                note=_ENC + 'trusted contracts: normalize_doc, FlatChoice.when_flat/when_broken preserve den/walk/wf/size; contextual '
-                     'functions pure, size-bounded, hlsafe (lemma_apply_ctx, lemma_ctx_ok); existence of an agreeing oracle is a meta-argument.'),
-    'C05': dict(category='other', engine='pyvc', technique=_PYVC,
+    'C04': dict(category='proof', engine='pyvc+bounded', technique=_PYVC + '; bounded reference matcher on top',
+                text='Proved for all documents, widths, ribbon fractions and both strategies (families layout + normalize, ~1100 obligations): '
+                     '(1) the stack machine best_layout emits exactly den(doc, O) - a compositional denotation written from the statement '
+                     '(fragments once and in order, line indents = sum of nest offsets, flat_choice by mode, always_break forces broken and '
+                     'forces every enclosing group, annotations as nested push/pop pairs) - for the oracle O of the decisions it took; '
+                     '(2) normalize_doc, all eight normalize methods and the lazy FlatChoice accessors preserve den (and wf, hlsafe, '
+                     'reachability of always_break, the normal-form classification) - Concat.normalize and Fill.normalize with loop '
+                     'invariants; (3) termination; no raise-path. Scope of the proof: documents satisfying hlsafe / fillclean (no literal '
+                     'hard line in the flat rendering of a group or fill item; no NIL fill item) - outside it one known finding. The '
+                     'renderer clause (only trailing blanks trimmed) and the carved shapes are decided by the bounded reference matcher.',
+                note=_ENC + 'assumed: contextual functions pure, size-bounded, returning hlsafe/fillclean/flatok documents (lemma_apply_ctx, '
+                     'lemma_ctx_ok); normalize_doc deterministic on document values and FlatChoice cache mutation invisible (value '
+                     'semantics); existence of an oracle agreeing with the recorded decisions (indices are distinct: meta-argument); '
+                     'generator laziness not modelled.'),
+    'C05': dict(category='other', engine='pyvc+bounded', technique=_PYVC + '; ' + _BOUNDED,
                 text='Proved for all inputs: both fitting predicates return exactly fits(...) of a compositional width semantics (iff contract, '
-                     'loop invariant, termination), and best_layout lays a group out flat only when its predicate said so. The last link '
-                     '(ghost line budget: the finished line stays within the limit) is not proved yet.',
-                note=_ENC + 'same trusted contracts as C04; float*int and round() uninterpreted.'),
-    'C06': dict(category='other', engine='pyvc', technique=_PYVC,
+                     'loop invariant, termination); best_layout lays a group out flat only when its predicate said so and never when an '
+                     'always_break is reachable in it; normalisation is proved (family normalize). Not proved: the last link (ghost line '
+                     'budget: the finished line stays within the limit). Bounded: decisions recovered through the reference semantics on all '
+                     'classic documents of <= 5 (6) nodes x widths x fractions x strategies: every flat group line within min(W, indent + R).',
+                note=_ENC + 'same assumptions as C04; float*int and round() uninterpreted.'),
+    'C06': dict(category='other', engine='pyvc+bounded', technique=_PYVC + '; ' + _BOUNDED,
                 text='Proved for all inputs: a fitting predicate answers False exactly when the compositional fits() is False (other direction of '
-                     'the C05 contract), and a group whose content normalises to an always_break is never laid out flat (lemma_forced_fails). '
-                     'The pformat corollary (one-line values stay on one line) is not decided yet.',
-                note=_ENC + 'same trusted contracts as C04.'),
+                     'the C05 contract) - fits() unfolds to the reasons the statement lists - and content with a reachable always_break never '
+                     'fits (lemma_forced_fails). Counter-models replay on the real predicates. Bounded: the one-line corollary for documents '
+                     'and for values at widths L, L+1, L+2.',
+                note=_ENC + 'same assumptions as C04.'),
     'C07': dict(category='other', engine='bounded', technique=_BOUNDED,
                 text='Bounded: 263 boundary values of the 20 shipped stdlib types, all 597 pytz zones, seeded random datetime-family values x 7 '
                      'nesting contexts x 8 (95 thorough) configurations: no failure warning, eval reconstructs an equal object. Two known findings.',
